@@ -190,12 +190,27 @@ def replay_values(doc):
     out(None, 'no native handler for ' + fn)
 
 
+def replay_profile_text(doc):
+    "C15/C16: the text must be read as a profile or rejected with ElectionProfileError - any other exception confirms"
+    from droop.profile import ElectionProfile, ElectionProfileError
+    text = doc.get('input')
+    try:
+        ElectionProfile(data=text)
+    except ElectionProfileError as e:
+        out(False, 'clean profile error: %s' % str(e)[:120])
+    except Exception as e:      # noqa
+        out(True, 'ElectionProfile(data=%r) raised %s: %s' % (text[:60], type(e).__name__, str(e)[:120]))
+    out(False, 'accepted as a profile')
+
+
 def main():
     with open(sys.argv[1]) as f:
         doc = json.load(f)
     fam = doc.get('family')
     if fam == 'values':
         replay_values(doc)
+    if fam == 'profile-text':
+        replay_profile_text(doc)
     try:
         import replay_families
         h = replay_families.HANDLERS.get(fam)
